@@ -49,7 +49,7 @@ type hInstance08 struct {
 	hadEntry bool
 }
 
-// VerifC08_Cluster: 2-3 instances all hold the same firing group and flush it; each
+// VerifC08_Cluster: 2 instances both hold the same firing group and flush it; each
 // runs the receiver's real stage (wait position x peer_timeout, dedup against its own
 // real notification log, notify, record) and gossips its log entry to the others
 // with an arbitrary delay, or loses it. An instance may die right after the receiver
@@ -62,10 +62,10 @@ type hInstance08 struct {
 // notification before it decides stays silent.
 //
 //vf:quick unwind=16 decisions=400 goroutines=12 preempt=0 paths=400000
-//vf:thorough unwind=16 decisions=600 goroutines=16 preempt=0 paths=4000000
+//vf:thorough unwind=16 decisions=600 goroutines=16 preempt=1 paths=4000000
 //vf:expect reach=single-sender reach=duplicate-under-loss reach=crash-covered
 func VerifC08_Cluster() {
-	n := 2 + vfTier()
+	n := 2 // (a third instance multiplies loss/delay/crash patterns beyond what a run can finish; the thorough tier deepens the schedule and hold choices instead)
 	peerTimeout := 15 * time.Second
 	m := NewMetrics(prometheus.NewRegistry(), featurecontrol.NoopFlags{})
 	insts := make([]*hInstance08, n)
